@@ -163,6 +163,11 @@ func (p *Proposal) data() ([]byte, error) {
 		return nil, err
 	}
 
+	// Verify the integrity of the data (checksum and size)
+	if err := r.Close(); err != nil {
+		return nil, err
+	}
+
 	return buf.Bytes(), nil
 }
 
